@@ -71,7 +71,7 @@ Qed.
 (* the names of the harness function library (and of the built-in concat) satisfy the condition *)
 Definition lib_names : list bytes :=
   map bytes_of_string ["echo"; "lower"; "len"; "echo_int"; "echo_ip"; "nonempty"; "show"; "lit_only"; "echo_ab";
-                       "echo_mb"; "echo_b"; "count"; "join2"; "tally"; "tally0"; "boom"; "concat"]%string.
+                       "echo_mb"; "echo_b"; "tagb"; "count"; "join2"; "tally"; "tally0"; "boom"; "concat"]%string.
 
 Example C13_library_names_ok :
   forallb (fun n => name_ok1 n || name_ok2 n || name_ok3 n) lib_names = true.
